@@ -16,6 +16,7 @@ import json
 import os
 import shutil
 import subprocess
+import sys
 import tempfile
 
 from .. import isolate
@@ -248,6 +249,100 @@ def observed(repo, cwd, a, b, paths):
     return sorted(res, key=repr), before, after
 
 
+def cli_forms(repo, cwd):
+    """(argv, (a, b, paths)) - nbdiff command lines and the query they must denote (ref-vs-path disambiguation of the CLI)."""
+    has_prev = subprocess.run(['git', 'rev-parse', '-q', '--verify', 'HEAD~1'], cwd=repo, stdout=subprocess.PIPE, stderr=subprocess.PIPE).returncode == 0
+    forms = [([], ('HEAD', 'WT', None)), (['HEAD'], ('HEAD', 'WT', None))]
+    for paths in FILTERS[cwd][1:]:
+        forms.append((['HEAD'] + paths, ('HEAD', 'WT', paths)))
+        forms.append((list(paths), ('HEAD', 'WT', paths)))
+    if has_prev:
+        forms.append((['HEAD~1', 'HEAD'], ('HEAD~1', 'HEAD', None)))
+        for paths in FILTERS[cwd][1:2]:
+            forms.append((['HEAD~1', 'HEAD'] + paths, ('HEAD~1', 'HEAD', paths)))
+    return forms
+
+
+def observed_cli(repo, cwd, argv):
+    """Pairs that `nbdiff <argv>` hands to its per-notebook handler (the handler itself is replaced by a recorder)."""
+    import io
+    from nbdime import nbdiffapp
+    os.chdir(os.path.join(repo, cwd))
+    before = os.getcwd()
+    res = []
+
+    def recorder(base, remote, output, args):
+        item = []
+        for f in (base, remote):
+            if isinstance(f, str):
+                if f == '/dev/null':
+                    item.append((f, None))
+                else:
+                    with open(f, encoding='utf8') as fh:
+                        item.append((os.path.normpath(os.path.relpath(os.path.abspath(f), repo)), fh.read()))
+            else:
+                name = getattr(f, 'name', '')
+                if isinstance(name, str) and ' (' in name:
+                    name = name[:name.rindex(' (')]
+                data = f.read()
+                try:
+                    f.close()
+                except Exception:
+                    pass
+                item.append((os.path.normpath(name), data))
+        res.append(tuple(item))
+        return 0
+    orig = nbdiffapp._handle_diff
+    so, se = sys.stdout, sys.stderr
+    sys.stdout, sys.stderr = io.StringIO(), io.StringIO()
+    nbdiffapp._handle_diff = recorder
+    try:
+        rc = nbdiffapp.main(list(argv))
+        after = os.getcwd()
+    finally:
+        nbdiffapp._handle_diff = orig
+        sys.stdout, sys.stderr = so, se
+        os.chdir(repo)
+    return sorted(res, key=repr), before, after, rc
+
+
+def run_cli_queries(ctx, repo, root_kind, history):
+    from .. import isolate as _iso
+    for cwd in CWDS:
+        for argv, (a, b, paths) in cli_forms(repo, cwd):
+            # a command line is only unambiguous if none of its path arguments is also a valid ref and refs are not files
+            ctx.count('evaluations')
+            ctx.count('cli_queries')
+            case = {'root': root_kind, 'history': [list(e) for e in history], 'cli': argv, 'cwd': cwd, 'denotes': [a, b, paths]}
+            try:
+                want = expected(repo, cwd, a, b, paths)
+            except HarnessError:
+                continue
+            if want:
+                ctx.count('nontrivial')
+            try:
+                with time_limit(60):
+                    got, before, after, rc = observed_cli(repo, cwd, argv)
+            except SystemExit as e:
+                ctx.violation('%s|CLI|exit-%s' % (PROP, e.code), 'nbdiff %s exited with %r' % (' '.join(argv), e.code), case)
+                os.chdir(repo)
+                continue
+            except Exception as e:
+                ctx.violation(exc_fingerprint(PROP, e, 'CLI-EXC'), 'nbdiff %s raised %s: %s' % (' '.join(argv), type(e).__name__, e), case)
+                os.chdir(repo)
+                continue
+            finally:
+                _iso.reset_globals()
+            form = ('refs%d' % sum(1 for x in argv if x.startswith('HEAD'))) + ('+paths' if paths else '')
+            if got != want:
+                gp = sorted((x[0][0], x[1][0]) for x in got)
+                wp = sorted((x[0][0], x[1][0]) for x in want)
+                ctx.violation('%s|CLI-MISMATCH|%s|%s|%s' % (PROP, 'paths' if gp != wp else 'contents', form, 'root' if cwd == '.' else 'subdir'),
+                              'nbdiff %s examines %s, git says %s' % (' '.join(argv), summarise(got)[:8], summarise(want)[:8]), case)
+            if before != after:
+                ctx.violation('%s|CLI-CWD-CHANGED|%s' % (PROP, form), 'nbdiff changed the working directory', case)
+
+
 def summarise(items):
     return [[s[0], None if s[1] is None else hashlib.sha1(s[1].encode('utf8')).hexdigest()[:10]] for pair in items for s in pair]
 
@@ -288,6 +383,9 @@ def run_queries(ctx, repo, root_kind, history):
 
 # ---- exploration -----------------------------------------------------------------------------------------
 
+_G_TIER = ['quick']
+
+
 def _shard(sh, ctx):
     mode, items = sh
     tmp = tempfile.mkdtemp(prefix='c17-', dir=isolate.scratch_root())
@@ -306,6 +404,8 @@ def _shard(sh, ctx):
                     out.append((root_kind, history + [list(ev)], state_key(work)))
             else:
                 run_queries(ctx, repo, root_kind, history)
+                if _G_TIER[0] == 'thorough' or len(history) <= 2:
+                    run_cli_queries(ctx, repo, root_kind, history)
                 ctx.sample({'root': root_kind, 'history': history}, rank=(root_kind, len(history), repr(history)))
         ctx.notes.append(json.dumps(out)) if mode == 'expand' else None
     finally:
@@ -335,6 +435,7 @@ def controls():
 def run(tier, seed):
     isolate.setup_env()
     depth = 3 if tier == 'quick' else 4
+    _G_TIER[0] = tier
     seen = {}
     frontier = []
     tmp = tempfile.mkdtemp(prefix='c17r-', dir=isolate.scratch_root())
@@ -386,6 +487,18 @@ def replay(case, ctx):
     isolate.setup_env()
     tmp = tempfile.mkdtemp(prefix='c17-', dir=isolate.scratch_root())
     repo = build(case['root'], case['history'], tmp)
+    if 'cli' in case:
+        a, b, paths = case['denotes']
+        want = expected(repo, case['cwd'], a, b, paths)
+        got, before, after, rc = observed_cli(repo, case['cwd'], case['cli'])
+        print('nbdiff', case['cli'], '->', summarise(got), 'git:', summarise(want))
+        if got != want:
+            ctx.violation('%s|CLI-MISMATCH|replay' % PROP, 'nbdiff examines other pairs than git reports', case)
+        if before != after:
+            ctx.violation('%s|CLI-CWD-CHANGED|replay' % PROP, 'cwd changed', case)
+        os.chdir('/')
+        shutil.rmtree(tmp, ignore_errors=True)
+        return
     global FILTERS, CWDS
     savedF, savedC = FILTERS, CWDS
     try:
